@@ -152,6 +152,42 @@ pub fn run(rep: &mut Report, rng: &mut Rng, thorough: bool) {
             }
         }
     }
+    // the estimator alone (nothing is allocated) up to the largest dictionary the encoder accepts: its u32
+    // arithmetic must not wrap (the model computes in unbounded naturals)
+    for dict in [1u32 << 28, (1 << 29) - 1, 1 << 29, (1 << 29) + 1, 600 << 20, 700 << 20, 768 << 20] {
+        for normal in [false, true] {
+            for bt4 in [false, true] {
+                for (lc, lp) in [(3u32, 0u32), (0, 4)] {
+                    let o = LzOpts { dict, lc, lp, pb: 2, normal, nice: 64, bt4, depth: 0, preset: None };
+                    let est_kib = o.to_opts().get_memory_usage() as u64;
+                    rep.count("kind.encoder-estimate-only");
+                    rep.model(format!("mem.enc dict={dict} lc={lc} lp={lp} normal={} bt4={}", normal as u8, bt4 as u8), format!("ok {est_kib}"));
+                    if est_kib * 1024 < dict as u64 {
+                        rep.fail("mem-estimate-unsound:encoder-huge-dict", &format!("the estimate {est_kib} KiB is smaller than the dictionary alone ({} KiB)", dict / 1024), json!({"what": "encoder estimate", "opts": o.json(), "estimate_kib": est_kib}));
+                    }
+                    rep.case(format!("enc-est:{}:{}:{}", dict >> 20, normal, bt4), true, || json!({"what": "encoder estimate only", "opts": o.json(), "estimate_kib": est_kib}));
+                }
+            }
+        }
+    }
+    // one real construction at 512 MiB with BT4 (about 5.3 GiB of zeroed, untouched pages): peak vs estimate
+    {
+        let o = LzOpts { dict: 1 << 29, lc: 3, lp: 0, pb: 2, normal: true, nice: 64, bt4: true, depth: 0, preset: None };
+        let est_kib = o.to_opts().get_memory_usage() as u64;
+        let (res, peak) = measure(|| guard(|| LZMAWriter::new_no_header(Null(0), &o.to_opts(), true).map(|_| ())));
+        let detail = || json!({"what": "encoder construction, 512 MiB dictionary, BT4", "opts": o.json(), "estimate_kib": est_kib, "peak_bytes": peak});
+        rep.count("kind.encoder-huge");
+        match res {
+            Outcome::Ok(()) => {
+                if (peak as u64) > est_kib * 1024 {
+                    rep.fail("mem-estimate-unsound:encoder-huge-dict", &format!("encoder peak {} KiB exceeds the estimate {} KiB", peak / 1024, est_kib), detail());
+                }
+            }
+            // an allocation failure of the sandbox is not a verdict on the estimator
+            other => rep.notes.push(format!("512 MiB BT4 construction not measured: {}", other.describe())),
+        }
+        rep.case("enc-huge:512MiB:bt4".into(), true, || detail());
+    }
     // decoder estimates
     let small = gen_data(rng, "text", 5000);
     for &dict in &dicts {
